@@ -432,7 +432,9 @@ def coqchk(pid: str, timeout=2400):
 
 # ------------------------------------------------------------------ models regenerated from the source text
 GEN_TARGETS = {          # property -> generated files (translator/py2gallina.py) tied to its model by GenProofs/<name>P.v
-    "C14": ["GenParam"], "C04": ["GenSimulator"], "C17": ["GenRemoteJob"], "C11": ["GenPerm"], "C08": ["GenDetector"],
+    "C14": ["GenParam"], "C04": ["GenSimulator", "GenFilter"], "C17": ["GenRemoteJob", "GenRemoteGuards"],
+    "C11": ["GenPerm", "GenReduce"], "C08": ["GenDetector"], "C10": ["GenConnector"], "C06": ["GenSource"],
+    "C07": ["GenLoss"],
 }
 
 
